@@ -36,6 +36,7 @@ type Cfg struct {
 	LargeVocab     bool
 	KindTwins      float64 // probability of a bare Pod named exactly like a controller workload of the same namespace (other labels)
 	SharedNames    float64 // probability that workloads of two namespaces share their name (and kind)
+	DottedNames    float64 // probability that one workload carries a dotted name (workload names are DNS subdomains: "payments.api" is valid)
 }
 
 func DefaultCfg() Cfg {
@@ -103,6 +104,11 @@ func GenBase(r *rng.R, c Cfg) *World {
 			wl.ExtraOwners = rng.Pick(r, []string{"", "", "", "before-false", "after-false", "before-omitted", "after-omitted"})
 		}
 		w.Workloads = append(w.Workloads, wl)
+	}
+	if c.DottedNames > 0 && r.P(c.DottedNames) {
+		i := r.Intn(len(w.Workloads))
+		w.Workloads[i].Name = w.Workloads[i].Name + ".api"
+		w.AddFeature("dottedWorkloadName")
 	}
 	// identity strata: peers are identified by namespace/name[kind]; nothing may key them by less
 	if c.KindTwins > 0 && r.P(c.KindTwins) {
@@ -380,6 +386,16 @@ func GenNetPols(r *rng.R, w *World, c Cfg) {
 			sort.Slice(w.Namespaces, func(i, j int) bool { return w.Namespaces[i].Name < w.Namespaces[j].Name })
 		}
 		w.NetPols = append(w.NetPols, GenNetPol(r, w, c, ns, fmt.Sprintf("np%d", i)))
+	}
+	// the same policy NAME in two namespaces (a "default-deny" stamped into every namespace) is no conflict
+	if r.P(0.25) {
+		for i := 1; i < len(w.NetPols); i++ {
+			if w.NetPols[i].Ns != w.NetPols[0].Ns {
+				w.NetPols[i].Name = w.NetPols[0].Name
+				w.AddFeature("policyNameSharedAcrossNamespaces")
+				break
+			}
+		}
 	}
 	TagNetPolFeatures(w)
 }
